@@ -492,7 +492,8 @@ def run(ctx):
                 "literal prefix, grammar-generated hints/FURLs and 1-2 character mutations of them (special characters "
                 ": . [ ] %% - , / @ newline, non-ASCII digits, Kelvin sign, NUL); function cases = FURL strings through "
                 "decode_furl/encode_furl/SturdyRef and (hint, handler set) through convert_legacy_hint/get_endpoint with the "
-                "real tcp/tor/i2p handlers; non-trivial = decoded successfully / contains a colon; CPU time on %d adversarial "
+                "real tcp/tor/i2p handlers; history cases = decode a FURL, mutate the hint list of that result (6 kinds, str and bytes), "
+                "decode an equal string again; non-trivial = decoded successfully / contains a colon; CPU time on %d adversarial "
                 "families with doubling sizes in a killed-on-timeout child process" % len(__import__("harness.c20_impl", fromlist=["x"]).FAMILIES))
     ctx.assumptions = [
         "sre's work is within a constant factor of the model matcher's step count (checked only by CPU-time growth on adversarial families)",
